@@ -31,6 +31,8 @@ pub enum Step {
 pub struct Case {
     pub phase_ms: u64,
     pub steps: Vec<Step>,
+    /// entries go through the library's global slot chain instead of the recording copy of it
+    pub global_chain: bool,
 }
 
 const LOADS: [f64; 6] = [0.5, 0.0, 0.25, 0.75, 1.0, 1.5];
@@ -63,7 +65,8 @@ pub fn decode(u: &mut Bytes) -> Case {
             steps.push(Step::Build { dt, res: u.choice(2), inbound: u.choice(4) != 3, batch: 1 + u.choice(3) as u32 });
         }
     }
-    Case { phase_ms, steps }
+    let global_chain = u.tail_choice(3) == 2;
+    Case { phase_ms, steps, global_chain }
 }
 
 impl Property for C09 {
@@ -77,7 +80,7 @@ impl Property for C09 {
         }
     }
     fn rule(&self) -> String {
-        "bytes -> history of inbound/outbound builds (batch 1..3), exits and clock advances on 2 resources, with SetRules steps that load 1-3 system rules (all five metric types x NoAdaptive/BBR) whose thresholds are placed below / equal to / above the value the harness's own model says the next probe will observe, and that inject load / CPU readings; every build is a probe: inbound blocked <=> some rule trips (QPS, concurrency, avg RT: value >= threshold; load, CPU: value > threshold and, under BBR, in-flight > 1 and in-flight > maxCompleteQps * minRt / 1000), block is SystemFlow naming a tripping rule with its observed value; outbound never blocked; non-trivial = some probe's observed value within one unit of a threshold or the BBR clause flipping the verdict; distinct = distinct decoded cases; all 10 (type x strategy) classes counted".into()
+        "bytes -> history of inbound/outbound builds (batch 1..3), exits and clock advances on 2 resources, with SetRules steps that load 1-3 system rules (all five metric types x NoAdaptive/BBR) whose thresholds are placed below / equal to / above the value the harness's own model says the next probe will observe, and that inject load / CPU readings; entries go through the recording copy of the global slot chain or (a third of the cases) through the library's global chain itself, where block type, rule and value are read from the error text; every build is a probe: inbound blocked <=> some rule trips (QPS, concurrency, avg RT: value >= threshold; load, CPU: value > threshold and, under BBR, in-flight > 1 and in-flight > maxCompleteQps * minRt / 1000), block is SystemFlow naming a tripping rule with its observed value; outbound never blocked; non-trivial = some probe's observed value within one unit of a threshold or the BBR clause flipping the verdict; distinct = distinct decoded cases; all 10 (type x strategy) classes counted".into()
     }
     fn assumptions(&self) -> Vec<String> {
         vec![
@@ -251,7 +254,7 @@ pub fn run_case(case: &Case, cfg: &RunCfg) -> Verdict {
                 }
                 let mut req = Req::new(&names[*res], *batch);
                 req.inbound = *inb;
-                match build_recorded(req) {
+                match build_either(req, case.global_chain) {
                     Ok(e) => {
                         if *inb && !tripping.is_empty() {
                             open.push(e);
@@ -277,7 +280,15 @@ pub fn run_case(case: &Case, cfg: &RunCfg) -> Verdict {
                         n_blocked += 1;
                         m.block(t, *batch as u64);
                         let bt = block_type_of(&msg);
-                        let rec = recd.unwrap_or_default();
+                        let mut rec = recd.unwrap_or_default();
+                        if case.global_chain {
+                            // no recorder in the global chain: block type, rule and value are looked for in the error text
+                            rec.block_type = bt.clone();
+                            if let Some((d, v)) = tripping.iter().find(|(d, _)| msg.contains(d.as_str())) {
+                                rec.rule_debug = Some(d.clone());
+                                rec.value_debug = Some(format!("{}", v));
+                            }
+                        }
                         if bt != "SystemFlow" || rec.block_type != "SystemFlow" {
                             fail!(ID, "wrong-block-type", format!("wrong-block-type|{}", bt), case, "step {}: blocked as {} / {}", si, bt, rec.block_type);
                         }
@@ -306,6 +317,7 @@ pub fn run_case(case: &Case, cfg: &RunCfg) -> Verdict {
     system_metric::verif_set_load(0.0);
     system_metric::verif_set_cpu_usage(0.0);
     let mut classes: Vec<&'static str> = classes_hit.into_iter().collect();
+    classes.push(if case.global_chain { "through-the-global-slot-chain" } else { "through-the-recording-chain" });
     if n_out > 0 { classes.push("outbound-probe"); }
     if bbr_flip > 0 { classes.push("bbr-clause-flips-verdict"); }
     if n_blocked > 0 { classes.push("has-block"); }
